@@ -230,7 +230,14 @@ impl<
         &self,
         timestamp: Timestamp,
     ) -> Result<&shared::TzifLocalTimeType, &PosixTimeZone<ABBREV>> {
-        let timestamp = timestamp.as_second();
+        // Transitions happen on whole seconds, so what we want is the floor
+        // of the timestamp. `as_second` truncates toward zero, which is one
+        // second too late for a negative timestamp with a fractional part.
+        let timestamp = if timestamp.subsec_nanosecond() < 0 {
+            timestamp.as_second() - 1
+        } else {
+            timestamp.as_second()
+        };
         // This is guaranteed because we always push at least one transition.
         // This isn't guaranteed by TZif since it might have 0 transitions,
         // but we always add a "dummy" first transition with our minimum
@@ -389,8 +396,10 @@ impl<
         ts: Timestamp,
     ) -> Option<TimeZoneTransition> {
         assert!(!self.timestamps().is_empty(), "transitions is non-empty");
+        // We want the ceiling of the timestamp. `as_second` truncates toward
+        // zero, which is already the ceiling for a negative timestamp.
         let mut timestamp = ts.as_second();
-        if ts.subsec_nanosecond() != 0 {
+        if ts.subsec_nanosecond() > 0 {
             timestamp = timestamp.saturating_add(1);
         }
         let search = self.timestamps().binary_search(&timestamp);
@@ -443,7 +452,14 @@ impl<
         ts: Timestamp,
     ) -> Option<TimeZoneTransition> {
         assert!(!self.timestamps().is_empty(), "transitions is non-empty");
-        let timestamp = ts.as_second();
+        // We want the floor of the timestamp. `as_second` truncates toward
+        // zero, which is one too many for a negative timestamp with a
+        // fractional part.
+        let timestamp = if ts.subsec_nanosecond() < 0 {
+            ts.as_second() - 1
+        } else {
+            ts.as_second()
+        };
         let search = self.timestamps().binary_search(&timestamp);
         let index = match search {
             Ok(i) => i.checked_add(1)?,
